@@ -371,3 +371,44 @@ SPECS["C13"] = CheckSpec(
     technique="explicit-state BFS over environment answers with a version-model monitor (ENVX-b)",
     design_ref="DESIGN.md §3 C13", engine="ENVX",
 )
+
+
+# --------------------------------------------------------------------------- C17
+C17_BUILD = dict(flavour="asan", name="c17_intervals", harness_srcs=["c17_intervals.c"],
+                 exclude_lib=["rtrlib/pfx/trie/trie-pfx.c", "rtrlib/spki/hashtable/ht-spkitable.c"],
+                 extra_ldflags=["-Wl,--wrap=lrtr_get_monotonic_time,--wrap=sleep,--wrap=lrtr_dbg"])
+
+
+def c17_jobs(tier, repo):
+    jobs = [Job("c17_intervals", C17_BUILD, ["--mode=eod"], "End of Data boundary triples x modes"),
+            Job("c17_intervals", C17_BUILD, ["--mode=init"], "rtr_init / rtr_mgr_init boundary triples")]
+    d = 9 if tier == "quick" else 13
+    for (rf, rt, ex) in ((3, 2, 600), (1, 1, 600), (700, 1, 600)):
+        jobs.append(_ej("C17", d, rf, rt, ex, 1))
+    if tier == "thorough":
+        for i in range(16):
+            jobs.append(Job("c17_intervals", C17_BUILD, ["--mode=sweep", "--shard=%d" % i, "--nshards=16"],
+                            "full 2^32 sweep shard %d/16" % i))
+    return jobs
+
+
+SPECS["C17"] = CheckSpec(
+    "C17", c17_jobs,
+    rule="(i) every triple from the 17-value boundary set {0,1,2,599,600,601,7199,7200,7201,86399,86400,86401,172799,"
+         "172800,172801,2^31,2^32-1}^3 in a version-1 End of Data x 4 interval modes x 2 initial settings through the "
+         "real rtr_sync (plus version-0 exchanges), compared with the literal mode table; thorough: all 2^32 values of "
+         "each field x mode through rtr_check_interval_option; (ii) the same triples through rtr_init and rtr_mgr_init; "
+         "(iii) explicit-state BFS over conversations (answers, Serial Notify, errors) checking at every wait in "
+         "ESTABLISHED that the receive timeout equals max(0, last sync + refresh - now) and that a Serial Notify is "
+         "followed by a Serial Query without sleeping; states = cases + conversation states",
+    assumptions=["the interval code only compares against the six range constants, so the boundary set is a complete "
+                 "partition (the thorough sweep checks this claim)"] + _ENVX_ASSUME,
+    counters_map={"distinct": ["distinct_outcomes", "states"]},
+    level_text="Exhaustive enumeration of the boundary partition of the three 32-bit fields in every mode through the "
+               "real synchronisation path (and of the full 2^32 range in the thorough tier), plus explicit-state "
+               "exploration of the polling behaviour of the real FSM under the simulated clock.",
+    level_note=ENVX_NOTE,
+    technique="exhaustive input enumeration through rtr_sync / rtr_init / rtr_mgr_init (INX) + explicit-state BFS of "
+              "the ESTABLISHED polling loop (ENVX-b)",
+    design_ref="DESIGN.md §3 C17", engine="ENVX",
+)
